@@ -566,6 +566,7 @@ func main() {
 	logging.Logger = quiet{}
 	crdt.Now = func() int64 { return atomic.LoadInt64(&clock) }
 	sh := vlib.NewShards(cfg.Out, "C05", "From Emitter Require Import Lib.Base Model.Lww Model.Cluster Check.C05.", "case", "check", 10)
+	sh.HypFn = "within"
 	r := cfg.Rng
 	nCases := 60 * cfg.Mult
 	for i := 0; i < nCases; i++ {
